@@ -364,3 +364,110 @@ def r6(R):
                                 'first shows -- and commits -- the later '
                                 'bytes (reset() cannot restore it)')
     R.require(n >= 2, 'savepoint store writes not recognised')
+
+
+@rule('C12.R8', 'a blob file of the savepoint store is served only for oids '
+      'the (restored) index knows', props=['C13'], min_instances=1)
+def r8(R):
+    tmp = R.prog.cls(TMP)
+    f = R.method(tmp, 'loadBlob')
+    g, b, F = R.cfg(f, tmp, max_depth=0)
+    R.instance('TmpStore.loadBlob')
+    from ..flow import implied_atoms
+    rets = [0]
+
+    def edge(node, st, lab, tgt):
+        if node.kind == 'test' and lab in ('T', 'F'):
+            for e, truth in implied_atoms(node.ast, lab):
+                if isinstance(e, ast.Compare) and len(e.ops) == 1 and \
+                        isinstance(e.ops[0], (ast.In, ast.NotIn)) and \
+                        dotted(e.comparators[0]) == ('self', 'index'):
+                    return isinstance(e.ops[0], ast.In) == truth
+                if isinstance(e, ast.Compare) and len(e.ops) == 1 and \
+                        isinstance(e.left, ast.Name) and isinstance(
+                            e.comparators[0], ast.Constant) and \
+                        e.comparators[0].value is None:
+                    pv = provenance(e.left, node.frame, F)
+                    if prov_has(pv, 'call', lambda p: p == (
+                            'self', 'index', 'get')):
+                        return isinstance(e.ops[0], ast.IsNot) == truth
+        return st
+
+    def at(node, st):
+        if node.kind == 'return' and node.ast.value is not None:
+            pv = provenance(node.ast.value, node.frame, F)
+            if prov_has(pv, 'call', lambda p: p[-1] == '_getCleanFilename'):
+                rets[0] += 1
+                if st is not True:
+                    return Violation(
+                        'loadBlob returns the savepoint store\'s blob file '
+                        'for an oid without having established that the oid '
+                        'is in the (restored) index: rollback restores the '
+                        'index but leaves the files, so the bytes of a '
+                        'rolled-back blob store are still served -- and '
+                        'committed')
+        return st
+
+    vs, stats = explore(g, None, at=at, edge=edge)
+    R.count(stats)
+    R.require(rets[0] or vs, 'loadBlob no longer returns a savepoint file')
+    for v in vs:
+        R.violation(v.node, v.message, g, v.path)
+
+
+@rule('C12.R9', 'before savepoint data is replayed into the real storage, '
+      'every oid it holds is recorded for invalidation and every created '
+      'object for disowning', props=['C11'], min_instances=1)
+def r9(R):
+    conn = R.prog.cls(CONN)
+    f = R.method(conn, '_commit_savepoint')
+    g, b, F = R.cfg(f, conn, max_depth=0)
+    R.instance('Connection._commit_savepoint')
+    seen = [0]
+
+    def from_index(e, fr):
+        pv = provenance(e, fr, F)
+        return any(k == 'path' and v[-1] == 'index' for k, v in pv) or \
+            ('attr', 'index') in pv
+
+    def edge(node, st, lab, tgt):
+        if lab == 'e':
+            return st
+        for op in F.ops(node):
+            if op.kind == 'call' and path_is(
+                    op.path, ('self', '_modified', 'extend')) and \
+                    op.ast.args and from_index(op.ast.args[0], node.frame):
+                st = st | {'modified'}
+            if op.kind == 'call' and path_is(
+                    op.path, ('self', '_creating', 'update')) and \
+                    op.ast.args and ('attr', 'creating') in provenance(
+                        op.ast.args[0], node.frame, F):
+                st = st | {'creating'}
+        return frozenset(st)
+
+    def at(node, st):
+        for op in F.ops(node):
+            if op.kind == 'call' and path_is(
+                    op.path, ('self', '_storage', 'store'),
+                    ('self', '_storage', 'storeBlob')):
+                seen[0] += 1
+                missing = {'modified', 'creating'} - st
+                if missing:
+                    return Violation(
+                        'the first savepoint record is handed to the real '
+                        'storage before %s: if this or a later store raises '
+                        '(a conflict), the objects not yet reached keep the '
+                        'state of the failed transaction after the abort' % (
+                            ' and '.join(
+                                {'modified': 'all oids of the savepoint '
+                                 'store are recorded in _modified',
+                                 'creating': 'its creating map is merged '
+                                 'into _creating'}[m] for m in sorted(
+                                     missing))))
+        return st
+
+    vs, stats = explore(g, frozenset(), at=at, edge=edge)
+    R.count(stats)
+    R.require(seen[0] or vs, '_commit_savepoint no longer replays stores')
+    for v in vs:
+        R.violation(v.node, v.message, g, v.path)
